@@ -262,6 +262,48 @@ impl Case {
     }
 }
 
+impl Case {
+    fn is_batch(&self) -> bool {
+        self.origin.starts_with("batch")
+    }
+}
+
+/// Is document u of the history inside the class of C09_batch_closed_exact / C09_batch_open_exact
+/// (Model/C09Batch.v: batch_op, sess_ok, init_okb - re-stated here; the driver prints its own verdict and the
+/// two must agree)?  All messages are didOpen/didChange/didSave/didClose; a document that ends closed or has
+/// no parser is always inside; one that ends open must have no didSave/didClose in the history, its didOpens
+/// carry the final language, and the newest version is carried with the newest text and only with it.
+fn batch_in_class(c: &Case, u: Url) -> bool {
+    if !c.ops.iter().all(|o| matches!(o, Op::Open(..) | Op::Change(..) | Op::Save(_) | Op::Close(_))) {
+        return false;
+    }
+    // the client's final copy
+    let mut cur: Option<(Lang, Text, usize)> = None;
+    for o in &c.ops {
+        match o {
+            Op::Open(u2, l, t, v) if *u2 == u => cur = Some((*l, *t, *v)),
+            Op::Change(u2, t, v) if *u2 == u => {
+                if let Some(x) = cur.as_mut() {
+                    x.1 = *t;
+                    x.2 = *v;
+                }
+            }
+            Op::Close(u2) if *u2 == u => cur = None,
+            _ => {}
+        }
+    }
+    let Some((lang, tn, vn)) = cur else { return true };
+    if lang == Lang::X {
+        return true;
+    }
+    c.ops.iter().all(|o| match o {
+        Op::Open(u2, l, t, v) if *u2 == u => *l == lang && *v <= vn && ((*v == vn) == (*t == tn)),
+        Op::Change(u2, t, v) if *u2 == u => *v <= vn && ((*v == vn) == (*t == tn)),
+        Op::Save(u2) | Op::Close(u2) => *u2 != u,
+        _ => true,
+    })
+}
+
 /// messages without a version get one: one more than the largest version before them (as an editor
 /// that counts every message would)
 fn renumber(ops: &mut [Op]) {
@@ -1027,7 +1069,10 @@ fn emit(rep: &mut Report, ctx: &mut Ctx, c: &Case, o: &Outcome) {
         ini.push_str(&format!(" V {} {w}", u.tok()));
     }
     let hist = c.ops.iter().enumerate().map(|(i, op)| op.tok(o.cfg_orders.get(&i).map(|v| v.as_slice()).unwrap_or(&[]))).collect::<Vec<_>>().join(" ; ");
-    let case_line = format!("{ini} | {hist} | k {} | {}", c.sched_tok(), urls.iter().map(|u| u.tok()).collect::<Vec<_>>().join(" "));
+    // batch cases (didOpen/didChange/didSave/didClose only, Model/C09Batch.v): the driver runs the schedule through its
+    // expansion to instr steps and adds the verdict of the shapes of C09_batch_closed_exact / C09_batch_open_exact
+    let batch = c.is_batch();
+    let case_line = format!("{ini} | {hist} | {} {} | {}", if batch { "b" } else { "k" }, c.sched_tok(), urls.iter().map(|u| u.tok()).collect::<Vec<_>>().join(" "));
     if o.stuck {
         rep.fail("stuck", "a handler neither finished nor asked the client anything within 120 s".into(), input.clone());
     }
@@ -1097,6 +1142,31 @@ fn emit(rep: &mut Report, ctx: &mut Ctx, c: &Case, o: &Outcome) {
         if o.quiescent { "q" } else { "n" },
         stale.iter().map(|u| u.tok()).collect::<Vec<_>>().join(" ")
     );
+    let impl_line = if batch {
+        // what the shapes must predict: exactly the documents whose last word is wrong on the real server
+        let shape = if !o.quiescent {
+            "-".to_string()
+        } else {
+            urls.iter()
+                .filter_map(|u| {
+                    if !batch_in_class(c, *u) {
+                        rep.count("batch-url:outside-class");
+                        Some(format!("~{}", u.tok()))
+                    } else if stale.contains(u) {
+                        rep.count("batch-url:in-class-wrong(overtaken)");
+                        Some(u.tok())
+                    } else {
+                        rep.count("batch-url:in-class-right");
+                        None
+                    }
+                })
+                .collect::<Vec<_>>()
+                .join(" ")
+        };
+        format!("{} # {}", impl_line.trim(), shape)
+    } else {
+        impl_line
+    };
     ctx.lines.push((case_line.clone(), impl_line.trim().to_string()));
     // ---- distribution
     let overlapping = o.handlers.iter().enumerate().any(|(i, h)| o.handlers.iter().enumerate().any(|(j, g)| i < j && g.1 < h.2.unwrap_or(usize::MAX)));
@@ -1475,6 +1545,73 @@ fn random_history(r: &mut Rng, len: usize, well_formed: bool) -> Case {
     c
 }
 
+/// A batch history (Model/C09Batch.v): didOpen/didChange/didSave/didClose only, every document opened at most once;
+/// a document that is saved is closed before the end (so that every document is inside the class of the exact
+/// theorems); the texts of one document are all different; versions increase.
+fn batch_history(r: &mut Rng, len: usize) -> Case {
+    let mut c = Case { cfg0: r.below(2), disk: vec![], udict: vec![], fdict: vec![], ops: vec![], sched: vec![], origin: "batch".into() };
+    if r.chance(1, 3) {
+        c.disk.push((Url::File(0, 0), Text { tid: 7, ident: 0 }));
+    }
+    if r.chance(1, 5) {
+        c.udict.push(r.below(2));
+    }
+    #[derive(Clone, Copy, PartialEq)]
+    enum St {
+        Fresh,
+        Open { saved: bool },
+        Closed,
+    }
+    let docs: Vec<Url> = URLS.iter().cloned().take(2 + r.below(URLS.len() - 1)).collect();
+    let langs: Vec<Lang> = docs.iter().map(|_| *r.pick(&[Lang::P, Lang::P, Lang::M, Lang::C, Lang::C, Lang::X])).collect();
+    let mut st = vec![St::Fresh; docs.len()];
+    let mut tid = vec![0usize; docs.len()];
+    let mut ver = vec![0usize; docs.len()];
+    let mut guard = 0;
+    while c.ops.len() < len && guard < 100 {
+        guard += 1;
+        // favour one document so that several of its handlers are in flight together
+        let i = if r.chance(3, 5) { 0 } else { r.below(docs.len()) };
+        let (u, lang) = (docs[i], langs[i]);
+        let mut text = |r: &mut Rng| {
+            let t = Text { tid: tid[i], ident: if lang == Lang::C { r.below(3) } else { 0 } };
+            tid[i] += 1;
+            t
+        };
+        match st[i] {
+            St::Fresh => {
+                ver[i] = 1 + r.below(3);
+                let t = text(r);
+                c.ops.push(Op::Open(u, lang, t, ver[i]));
+                st[i] = St::Open { saved: false };
+            }
+            St::Open { saved } => match r.below(10) {
+                0..=5 if tid[i] < 7 => {
+                    ver[i] += 1 + r.below(2);
+                    let t = text(r);
+                    c.ops.push(Op::Change(u, t, ver[i]));
+                }
+                6..=7 => {
+                    c.ops.push(Op::Save(u));
+                    st[i] = St::Open { saved: true };
+                }
+                _ => {
+                    let _ = saved;
+                    c.ops.push(Op::Close(u));
+                    st[i] = St::Closed;
+                }
+            },
+            St::Closed => {}
+        }
+    }
+    for i in 0..docs.len() {
+        if st[i] == (St::Open { saved: true }) {
+            c.ops.push(Op::Close(docs[i]));
+        }
+    }
+    c
+}
+
 /// number of client-interaction steps each handler takes is discovered by running: a random schedule
 /// is built by running leniently (steps naming finished handlers are skipped) and keeping what was
 /// really executed.
@@ -1612,6 +1749,10 @@ fn do_work(rep: &mut Report, ctx: &mut Ctx, w: Work) {
         Work::Exhaustive { base, prefix, batch } => {
             let n = exhaustive(rep, ctx, &base, &prefix, &batch);
             rep.count_n(&format!("exhaustive-schedules:{}-in-flight", batch.len()), n);
+            rep.count("exhaustive-batches");
+            if base.is_batch() {
+                rep.count("exhaustive-batches:sessions");
+            }
         }
     }
 }
@@ -1697,13 +1838,40 @@ fn thorough_works() -> Vec<Work> {
             }
         }
     }
+    // sessions that START in the batch (the documents are closed at the start, nothing is handled before): ALL
+    // interleavings of every ordered pair / triple (without repetition) of the messages of one session, all
+    // handlers in flight together - the class of C09_batch_closed_exact / C09_batch_open_exact
+    for (name, lang, ids, n3) in [("plain", Lang::P, [0usize, 0, 0], 5usize), ("code", Lang::C, [1, 1, 2], 4)] {
+        let alphabet: Vec<Op> = vec![
+            Op::Open(a, lang, Text { tid: 0, ident: ids[0] }, 0),
+            Op::Change(a, Text { tid: 1, ident: ids[1] }, 0),
+            Op::Change(a, Text { tid: 2, ident: ids[2] }, 0),
+            Op::Close(a),
+            Op::Save(a),
+        ];
+        let base = Case { cfg0: 0, disk: vec![], udict: vec![], fdict: vec![], ops: vec![], sched: vec![], origin: format!("batch-exhaustive:{name}") };
+        for (i, x) in alphabet.iter().enumerate() {
+            for (j, y) in alphabet.iter().enumerate() {
+                if i == j {
+                    continue;
+                }
+                works.push(Work::Exhaustive { base: base.clone(), prefix: vec![], batch: vec![x.clone(), y.clone()] });
+                for (k, z) in alphabet.iter().enumerate() {
+                    if k == i || k == j || i >= n3 || j >= n3 || k >= n3 {
+                        continue;
+                    }
+                    works.push(Work::Exhaustive { base: base.clone(), prefix: vec![], batch: vec![x.clone(), y.clone(), z.clone()] });
+                }
+            }
+        }
+    }
     works
 }
 
 fn main() {
     let (args, corpus) = hv::cli();
     let mut rep = Report::new(&args.out);
-    rep.rule = "histories of didOpen/didChange/didSave/didClose/didChangeWatchedFiles/executeCommand/didChangeConfiguration over 4 documents (3 files in 2 directories, 1 untitled) in 4 languages (plaintext, markdown, python, unknown), 2 settings objects, user- and file-dictionary words; schedules at client-interaction granularity executed on the real Backend: corpus (the model's refuting schedules), sequential histories, random interleavings with <= 4 handlers in flight, bursts of 4 messages handled together, a malformed stream (messages for closed documents, double opens, inexecutable schedules); thorough adds ALL interleavings of every ordered pair of 10 messages (2 in flight) and of every ordered triple of 3-4 messages (3 in flight) after 4 prefixes (saved file + second document, dirty file, untitled + file, source code). non-trivial = distinct case with >= 2 messages and >= 1 publication".into();
+    rep.rule = "histories of didOpen/didChange/didSave/didClose/didChangeWatchedFiles/executeCommand/didChangeConfiguration over 4 documents (3 files in 2 directories, 1 untitled) in 4 languages (plaintext, markdown, python, unknown), 2 settings objects, user- and file-dictionary words; schedules at client-interaction granularity executed on the real Backend: corpus (the model's refuting schedules), sequential histories, random interleavings with <= 4 handlers in flight, bursts of 4 messages handled together, batches of didOpen/didChange/didSave/didClose with the didOpen in flight (run on the instruction-level model, shape verdicts compared with the real server), a malformed stream (messages for closed documents, double opens, inexecutable schedules); thorough adds ALL interleavings of every ordered pair / triple of the 5 messages of a session started in the batch (plain and source file), and ALL interleavings of every ordered pair of 10 messages (2 in flight) and of every ordered triple of 3-4 messages (3 in flight) after 4 prefixes (saved file + second document, dirty file, untitled + file, source code). non-trivial = distinct case with >= 2 messages and >= 1 publication".into();
     let base = format!("/tmp/w-c09-{}", std::process::id());
     let rt = runtime();
     let _g = rt.enter();
@@ -1761,6 +1929,15 @@ fn main() {
             }
             works.push(Work::Planned(c, plan));
         }
+        // batches of didOpen/didChange/didSave/didClose (Model/C09Batch.v): the handlers of up to four messages in flight,
+        // the didOpen included; the driver adds the verdict of the shapes of C09_batch_closed_exact / _open_exact
+        for _ in 0..args.scale(110, 600) {
+            let len = r.range(2, 8);
+            let c = batch_history(&mut r, len);
+            let window = r.range(2, 4);
+            let plan = random_schedule_plan(&mut r, c.ops.len(), window);
+            works.push(Work::Planned(c, plan));
+        }
         // malformed stream
         for _ in 0..args.scale(60, 300) {
             let len = r.range(2, 7);
@@ -1805,6 +1982,22 @@ fn main() {
     }
     rep.extra.insert("reference_cache".into(), json!({"hits": hits, "misses": misses}));
     rep.extra.insert("worker_threads".into(), json!(threads));
+    // bounded exhaustive support for the model (thorough tier): every interleaving, at client-interaction
+    // granularity, of 2 / 3 handlers in flight together; batch cases are run by the driver on the instruction-level
+    // dispatcher (`run` on `kexpand` of the schedule)
+    let ex = |k: &str| rep.dist.get(k).cloned().unwrap_or(0);
+    rep.extra.insert(
+        "exhaustive_schedules".into(),
+        json!({
+            "2_in_flight": ex("exhaustive-schedules:2-in-flight"),
+            "3_in_flight": ex("exhaustive-schedules:3-in-flight"),
+            "batches_enumerated": ex("exhaustive-batches"),
+            "of_which_sessions_started_in_the_batch": ex("exhaustive-batches:sessions"),
+            "batch_urls_in_class_right": ex("batch-url:in-class-right"),
+            "batch_urls_in_class_wrong": ex("batch-url:in-class-wrong(overtaken)"),
+            "batch_urls_outside_class": ex("batch-url:outside-class"),
+        }),
+    );
     rep.finish();
 }
 
